@@ -35,7 +35,7 @@ def run(tier, seed, replay=None):
     build = common.build_repo("rel")
     work = common.new_workdir("c05")
     n = 150 if tier == "quick" else 1500
-    cases = harness.gen_cases(seed, 5, n, lambda rng, i: gen.gen_gattr_program(rng, same_line=(i % 10 == 9)))
+    cases = harness.gen_cases(seed, 5, n, lambda rng, i: gen.gen_gattr_program(rng, same_line=(i % 10 == 9), builtin=("collision" if i % 6 == 4 else None)))
     results = harness.compile_cases(build, work, cases)
     acc, rej = harness.split_accepted(results)
     outs = harness.drive(acc, ["c05"])
